@@ -498,21 +498,31 @@ func atpxDupSpec(idx int, rnd *rand.Rand, seed int64) *atpxSpec {
 }
 
 // atpxSignalSpec: Executes with a queued signal, half of them with the work-start held back.
-func atpxSignalSpec(idx int, rnd *rand.Rand, seed int64) *atpxSpec {
-	// Buffered transports only. Over two unbuffered pipes this stream deadlocks the real client and
-	// server now and then (about 1 session in 300, on the unchanged tree): the client holds its mutex
-	// while a write waits for the server to read; the server's read loop waits on the full workDone
-	// channel because the handler waits for the client to read an error report; the client's read
-	// loop waits for the client mutex (hasEntriesRemaining). That is a liveness matter (C06), not
-	// routing, and is reported separately; a quick check must not depend on it.
-	sp := &atpxSpec{Idx: idx, Stream: "signal", Bulk: true, Pattern: "rounds", Transport: []string{"chunked", "split"}[rnd.Intn(2)], Seed: seed, CountMode: "atleast"}
+func atpxSignalSpec(idx int, rnd *rand.Rand, seed int64, heavy bool) *atpxSpec {
+	// All three transports, the unbuffered pipe included: before the client got a write mutex of
+	// its own (its sendCBOR used to hold the client mutex) this stream deadlocked client and server
+	// over two unbuffered pipes now and then - a write held the client mutex while it waited for the
+	// server to read; the server's read loop waited on the full workDone channel because the handler
+	// waited for the client to read an error report; the client's read loop waited for the client
+	// mutex. It shows as Executes (and Close) that do not return within the watchdog.
+	sp := &atpxSpec{Idx: idx, Stream: "signal", Bulk: true, Pattern: "rounds", Transport: []string{"pipe", "chunked", "split"}[rnd.Intn(3)], Seed: seed, CountMode: "atleast"}
 	if rnd.Intn(4) > 0 {
 		sp.C2SStallUs = 200 + rnd.Intn(1500)
 	}
 	rounds := 3 + rnd.Intn(4)
+	if heavy {
+		// two unbuffered pipes, every write stalled, 6-8 concurrent calls per round: five or more
+		// complaints about overtaking signals are queued in the server while the client still writes
+		sp.Transport = "pipe"
+		sp.C2SStallUs = 300 + rnd.Intn(1200)
+		rounds = 6 + rnd.Intn(3)
+	}
 	for r := 0; r < rounds; r++ {
 		var round []int
 		k := 2 + rnd.Intn(5)
+		if heavy {
+			k = 6 + rnd.Intn(3)
+		}
 		for c := 0; c < k; c++ {
 			run := fmt.Sprintf("g%d-%d-%d", idx, r, c)
 			call := atpxCall{RunID: run, Step: "sbulk", Signal: true, Delay: rnd.Intn(2000)}
@@ -1158,7 +1168,7 @@ func atpxCmd(a Args) {
 		jobs = append(jobs, atpxDupSpec(n+nBulk+nReuse+i, brnd, a.Seed*4000037+int64(i)))
 	}
 	for i := 0; i < nSig; i++ {
-		jobs = append(jobs, atpxSignalSpec(n+nBulk+nReuse+nDup+i, brnd, a.Seed*5000011+int64(i)))
+		jobs = append(jobs, atpxSignalSpec(n+nBulk+nReuse+nDup+i, brnd, a.Seed*5000011+int64(i), i%2 == 1))
 	}
 	results := make([]atpxSessionResult, len(jobs))
 	sem := make(chan struct{}, 16)
